@@ -60,6 +60,16 @@ def auto_constant_rules(F):
                         if good and any(d[0] == "call" for d, p in srcs):
                             out[s["key"]] = (True, "A8: the capacity is the len() of an existing collection")
                     continue
+                if s["kind"] == "extern" and s["detail"] == "truncate":
+                    # A10: String::truncate(n) with n the length of strip_suffix / strip_prefix / trim_end of the same text, or its len():
+                    # a prefix length taken from the string itself lies on a character boundary
+                    t = b.term(s["bb"])
+                    if len(t.get("args", [])) > 1:
+                        from .c03 import kind_deep
+                        names = {b.term(d[1])["callee"].get("name") for d, p in kind_deep(b, t["args"][1]) if d[0] == "call"}
+                        if names and names <= {"strip_suffix", "trim_end", "trim_end_matches", "len", "map_or", "map_or_else", "map", "unwrap_or", "unwrap_or_else", "deref", "as_str", "new", "with_capacity", "read_line", "borrow"} and names & {"strip_suffix", "trim_end", "trim_end_matches", "len"}:
+                            out[s["key"]] = (True, "A10: truncated to the length of a prefix of the same string (strip_suffix / trim_end / len)")
+                    continue
                 if s["kind"] != "assert":
                     continue
                 t = b.term(s["bb"])
